@@ -212,6 +212,7 @@ func (c *ctxT) checkCase(word []int) (string, string) {
 	}
 	p.Node.ResetGlobals()
 	before := p.Node.StoreDigest()
+	beforeParts := p.Node.StoreDigestParts()
 	beforeDump, _ := p.Node.DumpState(p.Node.CS.SDB().GetRoot())
 	for _, v := range vs {
 		err := p.Node.Deliver(v.blk)
@@ -227,8 +228,8 @@ func (c *ctxT) checkCase(word []int) (string, string) {
 			if ad != nil {
 				diff = ad.Diff(beforeDump)
 			}
-			_ = p.Reset()
-			return desc, fmt.Sprintf("invalid block (%s) was refused (%v) but the node changed: stores/best/state root/consensus status differ (accounts %v)", v.name, err, diff)
+			defer p.Reset()
+			return desc, fmt.Sprintf("invalid block (%s) was refused (%v) but the node changed: [chain store, state store, pointers] %v -> %v (accounts %v)", v.name, err, beforeParts, p.Node.StoreDigestParts(), diff)
 		}
 	}
 	return desc, ""
